@@ -32,6 +32,9 @@ Definition attrs_ok (t : Z) (th : tstate) := exists ks, reqs t = RAttrs ks /\ pr
 Definition memo_ok (t : Z) (th : tstate) := exists ks, reqs t = RMemo ks /\ progress mf ks th.
 Definition sort_ok (t : Z) (th : tstate) := exists ks, reqs t = RSort ks /\ progress sf ks th.
 
+Definition is_val (q : req) : Prop :=
+  (exists ok e, q = RValidate ok e) \/ (exists e, q = RValidateX e).
+
 (** per-thread invariant of the repaired program *)
 Definition tinv (s : state) (t : Z) : Prop :=
   let th := thr s t in
@@ -44,12 +47,13 @@ Definition tinv (s : state) (t : Z) : Prop :=
   | W_get2 => reqs t = RWsdl /\ wlock s = Some t /\ app_wsdl s = None /\ b_wsdl s = Some 0
   | W_store2 => reqs t = RWsdl /\ wlock s = Some t /\ app_wsdl s = None /\ lw th = Some 0
   | W_rel => reqs t = RWsdl /\ wlock s = Some t /\ app_wsdl s = Some 0 /\ lw th = Some 0
-  | V_acq => exists ok e, reqs t = RValidate ok e
-  | V_val => (exists ok e, reqs t = RValidate ok e) /\ vlock s = Some t
+  | V_acq => is_val (reqs t)
+  | V_val => is_val (reqs t) /\ vlock s = Some t
   | V_log => vlock s = Some t /\ ret th = false /\
              exists e, reqs t = RValidate false e /\ errlog s = Some e
   | V_rel => vlock s = Some t /\
-             exists ok e, reqs t = RValidate ok e /\ ret th = ok /\ (ok = false -> txt th = Some e)
+             ((exists ok e, reqs t = RValidate ok e /\ ret th = ok /\ (ok = false -> txt th = Some e)) \/
+              (exists e, reqs t = RValidateX e /\ ret th = false /\ txt th = Some e))
   | G_get | G_pub => attrs_ok t th
   | G_use => attrs_ok t th /\ ref th < next s /\ heap s (ref th) = full (key_of V th)
   | M_chk1 | M_acq => memo_ok t th
@@ -99,8 +103,9 @@ Lemma inv_init : inv (init Repaired reqs).
 Proof.
   split.
   - unfold ginv. simpl. repeat split; try (intros; discriminate); auto.
-  - intro t. unfold tinv. simpl. destruct (reqs t) as [| |ok e|ks|ks|ks] eqn:Hq; simpl; auto.
-    + eauto.
+  - intro t. unfold tinv. simpl. destruct (reqs t) as [| |ok e|e|ks|ks|ks] eqn:Hq; simpl; auto.
+    + left. eauto.
+    + right. eauto.
     + destruct ks; simpl; auto. exists (z :: ks). split; auto.
       exists []. simpl. repeat split; auto. discriminate.
     + destruct ks; simpl; auto. exists (z :: ks). split; auto.
@@ -225,27 +230,37 @@ Proof.
       * simpl. auto.
       * other_thread T t u E.
   - (* V_val *)
-    destruct Tu as ((ok & e & Hq) & Hv). rewrite Hq in H.
-    inversion H; subst s'; clear H. split.
-    + gframe Gbuild Hpc u.
-    + intro t. unfold tinv at 1. simpl. split_thread t u.
-      * destruct ok; simpl.
-        -- split; auto. exists true, e. repeat split; auto. discriminate.
-        -- repeat split; auto. exists e. auto.
-      * other_thread T t u E.
+    destruct Tu as ([(ok & e & Hq)|(e & Hq)] & Hv); rewrite Hq in H;
+      inversion H; subst s'; clear H.
+    + split.
+      * gframe Gbuild Hpc u.
+      * intro t. unfold tinv at 1. simpl. split_thread t u.
+        -- destruct ok; simpl.
+           ++ split; auto. left. exists true, e. repeat split; auto. discriminate.
+           ++ repeat split; auto. exists e. auto.
+        -- other_thread T t u E.
+    + split.
+      * gframe Gbuild Hpc u.
+      * intro t. unfold tinv at 1. simpl. split_thread t u.
+        -- simpl. split; auto. right. exists e. auto.
+        -- other_thread T t u E.
   - (* V_log *)
     destruct Tu as (Hv & Hret & e & Hq & Hlog).
     inversion H; subst s'; clear H. split.
     + gframe Gbuild Hpc u.
     + intro t. unfold tinv at 1. simpl. split_thread t u.
-      * simpl. split; auto. exists false, e. repeat split; auto.
+      * simpl. split; auto. left. exists false, e. repeat split; auto.
       * other_thread T t u E.
   - (* V_rel *)
-    destruct Tu as (Hv & ok & e & Hq & Hret & Htxt).
-    inversion H; subst s'; clear H. split.
+    destruct Tu as (Hv & [(ok & e & Hq & Hret & Htxt)|(e & Hq & Hret & Htxt)]);
+      inversion H; subst s'; clear H; split.
     + gframe Gbuild Hpc u.
     + intro t. unfold tinv at 1. simpl. split_thread t u.
       * simpl. rewrite Hq, Hret. simpl. destruct ok; auto. now rewrite Htxt.
+      * other_thread T t u E.
+    + gframe Gbuild Hpc u.
+    + intro t. unfold tinv at 1. simpl. split_thread t u.
+      * simpl. rewrite Hq, Hret, Htxt. reflexivity.
       * other_thread T t u E.
   - (* G_get *)
     destruct (cache s (key_of V (thr s u))) as [r|] eqn:Hc; inversion H; subst s'; clear H.
